@@ -102,8 +102,13 @@ func VerifH05cRetries() {
 	}
 	p := Proxy{Upstreams: []Upstream{u}}
 	body := verifrt.Bytes("body", verifrt.IntRange("bodylen", 0, 2))
+	// the upload's length may be undeclared (chunked transfer, HTTP/2 without content-length)
+	clen := int64(len(body))
+	if verifrt.Bool("length-not-declared") {
+		clen = -1
+	}
 	r := &http.Request{Method: "POST", URL: &url.URL{Path: "/x"}, Header: http.Header{}, Host: "site", RemoteAddr: "1.2.3.4:5",
-		ContentLength: int64(len(body)), Body: io.NopCloser(bytes.NewReader(body))}
+		ContentLength: clen, Body: io.NopCloser(bytes.NewReader(body))}
 	w := &zzRetryW{}
 	status, _ := p.ServeHTTP(w, r)
 	nfailing := 0
